@@ -172,6 +172,30 @@ def run_dispersive(part, unit):
                     part.violation(PID, 'coated-lens-intensity-independent-of-earlier-wavelengths', 'Optic.trace', 'dispersive-medium,lens-reused-across-wavelengths',
                                    dict(glass=glass, state=st if isinstance(st, str) else list(st), order=list(order), wavelength=w),
                                    observed=got[:4], expected=ref[:4], tol=TOL)
+    # a Fresnel-coated singlet after set_index on the same lens == the same lens built with that index (the coating's media are the
+    # media of the surface it sits on)
+    import copy as _copy
+    g0 = ['ideal', 1.5, 0.0]
+    base = [S('sphere', R=p['R'], mat=g0, t=5.0, stop=True, coating='fresnel'), S('sphere', R=-p['R'], mat='air', t=40.0, coating='fresnel')]
+    spb = LZ.spec(base, obj=LZ.INF, ap=('EPD', p['epd']), ftype='angle', fields=(0.0, 12.0), waves=((0.5876, True),))
+    for n_new in (1.8, 2.0):
+        sp_new = _copy.deepcopy(spb)
+        sp_new['surfs'][0]['mat'] = ['ideal', n_new, 0.0]
+        for st in ('unpolarized', 'H'):
+            o = LZ.build(spb)
+            o.set_polarization(state_spec(st))
+            o.trace(0.0, 1.0, 0.5876, 3, 'hexapolar')
+            o.set_index(n_new, 1)
+            got = np.asarray(o.trace(0.0, 1.0, 0.5876, 3, 'hexapolar').i, float).copy()
+            o2 = LZ.build(sp_new)
+            o2.set_polarization(state_spec(st))
+            ref = np.asarray(o2.trace(0.0, 1.0, 0.5876, 3, 'hexapolar').i, float)
+            part.states += 2
+            part.transitions += 4
+            part.evals += 1
+            if got.shape != ref.shape or np.max(np.abs(got - ref)) > TOL:
+                part.violation(PID, 'coated-lens-intensity-follows-set_index', 'Optic.set_index', 'fresnel-coating,history=set_index',
+                               dict(glass=glass, state=st, new_index=n_new), observed=got[:4], expected=ref[:4], tol=TOL)
     part.sample(dict(glass=glass))
 
 
